@@ -189,7 +189,7 @@ theorem step_obs_valid (cfg : Cfg) (A : Nat) (hA : 0 < A) (s : State) (h : SpecI
 
 /-- whole plays: along `run` (the L1 step iterated over (joint action, draw) pairs) from a state with the invariant and
 counter 0, every observation emitted by one of the first `time_limit` steps is a member of the spec (step `time_limit` is
-LAST: `robot_warehouse_episode_last_by_limit`) -/
+LAST: `Props.C11.rware_episode_last_by_limit` / `rware_generated_episode_last_by_limit` in Props/Env/RobotWarehouse.lean) -/
 theorem run_obs_valid (cfg : Cfg) (A : Nat) (hA : 0 < A) : ∀ (ps : List (List Int × List Int)) (s : State) (n : Nat),
     SpecInv A s → s.stepCount = (n : Int) → ∀ (j : Nat), ((n + j : Nat) : Int) < cfg.timeLimit →
     ∀ e, (run cfg s ps)[j]? = some e → (obsSpec cfg A).valid (toNValue e.2.obs) = true := by
